@@ -23,6 +23,8 @@ SPEC = {
     "required_theorems": [
         "C17_classify_frame", "C17_classify_WF", "C17_classify_ok_all_anchored",
         "C17_markCurve_terminates", "C17_markCurve_ok_of_closed", "C17_markCurve_err_leaves_boundary",
+        "C17_core_faces_and_boundary_edges_anchored", "C17_boundary_loop_terminates", "C17_classify_terminates",
+        "C17_classify_assertion_can_fire",
         "C17_vertex_merge_comm", "C17_vertex_merge_idem", "C17_vertex_merge_assoc", "C17_vertex_merge_lower_dim",
         "C17_vertex_merge_fails_iff", "C17_edge_merge_fails_iff", "C17_face_merge_fails_iff",
     ],
@@ -50,8 +52,6 @@ SPEC = {
         "assertion panics (both drivers agree, stream `small maps`); validated on every generated capture (no panic)",
         "one surface id per set of faces connected without crossing a curve / distinct ids across curves; boundary "
         "vertices end with Node or Curve and interior ones with Surface: evaluated by the oracle on the real implementation",
-        "termination of the second loop (`while let` over unmarked boundaries) and of the face queue: the model runs them "
-        "on a fuel and reports exhaustion as `diverges`; never observed (all correspondence cases terminate on both sides)",
         "the lazily evaluated first loop re-reads VertexAnchor after earlier mark_curve calls: a Curve-anchored vertex with a "
         "larger id than the node starts a new curve (modelled, agrees with the implementation on hand-made maps; harmless "
         "on capture outputs where point-of-interest vertices have the largest ids)",
